@@ -22,7 +22,7 @@ for f in $SRC/*; do case $(basename $f) in patch.diff|meta.json) ;; *) cp $f $OU
 cd $W
 run_demo() { ( cd $W && timeout 600 bash -c "$DEMOCMD" ) > $OUT/demo_$1.log 2>&1; echo $?; }
 D0=$(run_demo without)
-git apply $OUT/patch.diff 2> $OUT/apply.log || { echo "patch does not apply"; D0=applyfail; }
+git apply $OUT/patch.diff 2> $OUT/apply.log || git apply --3way $OUT/patch.diff 2>> $OUT/apply.log || { echo "patch does not apply"; D0=applyfail; }
 BUILD=0; go build ./... > $OUT/build.log 2>&1 || BUILD=1
 D1=$(run_demo with)
 # the repository's own tests, without the demo files
